@@ -672,10 +672,10 @@ CLAIM = {
     "level": "Partial, structural: index discipline of series/inputs/labels in all 33 output classes, written-vs-read column layout of obsfcst, "
              "comparison shape of every binning loop (half-open, top edge of probability bins), annotation key wiring, the x/y argument pair "
              "of six diagrams, and the column/input/NaN discipline of standard line plots. These are necessary conditions visible in the code; the coordinates of drawn artists are runtime quantities and "
-             "most diagrams' series values are explicitly UNCOVERED.",
+             "most diagrams' series values are explicitly UNCOVERED. C16.7/C16.8 (added): the values of five diagrams' series and the per-input masks of the maps.",
     "note": "Trusted: CPython ast, vsa SHAPE/FORM engines, matplotlib. Known findings: probability bins of reliability / discrimination / "
             "ignorance-contribution drop cases with p = 1.",
     "technique": "static analysis: loop-index discipline lint, normal-form comparison of index polynomials, comparison-shape evaluation of bin "
                  "tests over the finite order-relation domain, key/value wiring, drawing-call argument extraction by symbolic folding; C16.6 the matrix returned by Standard._get_x_y "
-                 "folded and taken apart (column f <- metric.compute(data, f, ...), -r intervals, no NaN-discarding reduction)",
+                 "folded and taken apart (column f <- metric.compute(data, f, ...), -r intervals, no NaN-discarding reduction); C16.7 the series of the murphy, roc, error-decomposition, performance and droc diagrams by value: the drawing call's array arguments folded, the element at the generic index read back (vsa/arrays.py), event / probability / obs / fcst sub-terms abstracted into symbols, the rest compared with the definition as a rational function, provenance of the abstracted sub-terms checked structurally; C16.8 score-column index of every mask and colour on the map of input f",
 }
